@@ -912,9 +912,15 @@ class TreeImpl(D.Impl):
             return
 
         def cb(result):       # Impl._watch's errback returns None, so this runs whatever the outcome was
-            self._fire_hook(h, acts)
+            self._fire_hook(h, [a for a in acts if a[0] != "raise"])
+            if any(a[0] == "raise" for a in acts):
+                # user code that RAISES inside its callback: Twisted turns it into a failure of the Deferred's chain;
+                # the broker client must be unaffected (the model has no event for it: the traces must still agree)
+                self.nraise = getattr(self, "nraise", 0) + 1
+                raise RuntimeError("user callback raises")
             return result
         d.addCallback(cb)
+        d.addErrback(lambda f: None)      # keep the garbage collector from reporting the unhandled user error
 
     def _fire_hook(self, h, acts):
         fr = self.frames[-1] if self.frames else None
@@ -1089,7 +1095,9 @@ def gen_hooks(rnd, nmax=48):
         r = rnd.random()
         if r < 0.42:
             hooks[h] = [call(h) for _ in range(rnd.choice([1, 1, 2, 3]))]
-        elif r < 0.55:       # cancel a request and re-issue its correlation id (top-level ids are handed out 1, 2, 3, ..)
+        elif r < 0.49:       # user code that raises, alone or after its calls
+            hooks[h] = ([call(h)] if rnd.random() < 0.5 else []) + [("raise",)]
+        elif r < 0.60:       # cancel a request and re-issue its correlation id (top-level ids are handed out 1, 2, 3, ..)
             h2 = rnd.randint(max(0, h - 3), h + 4)
             hooks[h] = [("cancel", h2), ("make", h2 + 1 + rnd.choice([0, 0, 0, -1, 1]), rnd.random() < 0.8)]
     return hooks
@@ -1166,6 +1174,7 @@ def tree_part(ck, rnd, n, tied):
         ck.hist("calls_inside_sendQueued_loop", im.nloop["flush"])
         ck.hist("calls_inside_close_loop", im.nloop["close"])
         ck.hist("calls_from_tail_callbacks", im.ntail)
+        ck.hist("user_callbacks_that_raise", getattr(im, "nraise", 0))
     mo = ck.model("brokerclienthook", cases)
     ndiff, first, bad, skipped, skipdiff = 0, None, None, 0, 0
     for i, ((events, hooks, im, counts), mt) in enumerate(zip(metas, mo)):
@@ -1279,3 +1288,165 @@ def probe_send_raises():
     if len(seen["d2"]) != 1:
         bad.append("unsendable request completed %d times" % len(seen["d2"]))
     return bad
+
+
+# ------------------------------------------------------------------ sendString raising inside _sendRequest (Model/BrokerClientWrite.v)
+class WriteImpl(D.Impl):
+    """adds the event ("makebad", rid, expect): makeRequest with a str payload - `pack(..) + string` raises TypeError
+    every time the request is written (on a live connection at once, otherwise when the queue is flushed)"""
+
+    def _watch(self, d, h):
+        from afkak.common import ClientError
+        from twisted.internet.defer import CancelledError
+
+        def cb(result):
+            self.log.append(("def", h, 2, None) if result is None else (("def", h, 1, result) if isinstance(result, bytes) else ("def", h, 99, None)))
+
+        def eb(f):
+            code = 3 if f.check(CancelledError) else (4 if f.check(ClientError) else (5 if f.check(TypeError) else 99))
+            self.log.append(("def", h, code, None))
+        d.addCallbacks(cb, eb)
+
+    def apply(self, ev):
+        if ev[0] != "makebad":
+            return D.Impl.apply(self, ev)
+        real = self.payload
+        self.payload = lambda h, rid: "unsendable-%d-%d" % (h, rid)        # str, not bytes
+        try:
+            rec = D.Impl.apply(self, ("make", ev[1], ev[2]))
+        finally:
+            self.payload = real
+        rec = (ev,) + tuple(rec[1:])
+        self.records[-1] = rec
+        return rec
+
+
+def enc_wcase(events):
+    out = []
+    for ev in events:
+        out += [15, ev[1], 1 if ev[2] else 0] if ev[0] == "makebad" else D.enc_event(ev)
+    return out
+
+
+def write_history(rnd, length, pk):
+    im = WriteImpl(pk, None)
+    events, nxt = [], 1
+    for _ in range(length):
+        opts = [("make", 25.0 if im.transport() else 50.0)]
+        if im.handles:
+            opts.append(("cancel", 8.0))
+        if im.attempt():
+            opts += [("ok", 30.0), ("fail", 6.0)]
+        if im.timer():
+            opts.append(("fire", 20.0))
+        if im.transport():
+            opts += [("frame", 30.0), ("lost", 6.0), ("disc", 1.5)]
+        opts.append(("close", 1.0))
+        x = rnd.uniform(0, sum(w for _, w in opts))
+        for kind, w in opts:
+            x -= w
+            if x <= 0:
+                break
+        if kind == "make":
+            rid = rnd.choice(im.rids) if im.rids and rnd.random() < 0.08 else nxt
+            nxt += 1
+            ev = ("makebad" if rnd.random() < 0.3 else "make", rid, rnd.random() > 0.25)
+        elif kind == "cancel":
+            ev = ("cancel", rnd.randrange(len(im.handles)))
+        elif kind == "frame":
+            rid = rnd.choice(im.rids) if im.rids and rnd.random() < 0.85 else 77
+            ev = ("frame", D.reply(rid, bytes(rnd.randint(0, 255) for _ in range(rnd.choice([0, 2, 5])))))
+        else:
+            ev = (kind,)
+        im.apply(ev)
+        events.append(ev)
+    return events, im
+
+
+def write_monitor(records, pid):
+    """generic discipline + what the write failure must look like: the Deferred of an unsendable request fails with the
+    exception exactly once, is never written, and nothing else fires in its place"""
+    g = generic_monitor(records, pid)
+    if g:
+        return g
+    bad_handles, nh = set(), 0
+    for idx, (ev, _c, outs, en) in enumerate(records):
+        if ev[0] in ("make", "makebad") and ("raised", 1) not in outs:
+            if ev[0] == "makebad":
+                bad_handles.add(nh)
+            nh += 1
+        for o in outs:
+            if o[0] == "write" and o[1] in bad_handles:
+                return ("C06_write_failure" if pid == "C06" else "C10_write_failure_never_resent", "bytes of an unsendable request (handle %d) were written" % o[1], idx)
+            if o[0] == "def" and o[2] == 5 and o[1] not in bad_handles:
+                return ("C06_write_failure" if pid == "C06" else "C10_write_failure_never_resent", "a sendable request (handle %d) failed with the write exception" % o[1], idx)
+    return None
+
+
+def write_part(ck, rnd, n, tied):
+    label = "sendString raising inside _sendRequest (str payload), on a live connection and during the queue flush, vs Model.BrokerClientWrite.wrun"
+    cases, impl, metas, bad = [], [], [], None
+    for _ in range(n):
+        pk = rnd.choice(["const", "const+cc"])
+        events, im = write_history(rnd, rnd.choice([8, 15, 30, 60]), pk)
+        cases.append(enc_wcase(events))
+        impl.append(D.enc_trace(im.records))
+        metas.append((events, pk, im.records))
+        ck.hist("unsendable_requests", sum(1 for e in events if e[0] == "makebad"))
+        ck.hist("write_failures", sum(1 for r in im.records for o in r[2] if o[0] == "def" and o[2] == 5))
+        if bad is None and write_monitor(im.records, ck.pid):
+            bad = len(metas) - 1
+    mo = ck.model("brokerclientwrite", cases)
+    diffs = [i for i, (a, b) in enumerate(zip(impl, mo)) if a != b]
+    nco, nbad = ck.coq_sample("brokerclientwrite", "Model.BrokerClientWrite", list(zip(cases, mo)))
+    if nbad:
+        raise vlib.CheckAbort("extracted write model and vm_compute disagree on %d of %d sampled cases" % (nbad, nco))
+    st = ck.cov["correspondence"].setdefault(label, {"cases": 0, "differences": 0, "in_coq_sample": 0})
+    st["cases"] += n
+    st["differences"] += len(diffs)
+    st["in_coq_sample"] += nco
+    ck.cov["evaluations"] += n
+    for c, m in zip(cases, metas):
+        if any(o[0] == "def" and o[2] == 5 for r in m[2] for o in r[2]):
+            ck._distinct.add(vlib.hashlib.sha1(vlib.encode_line(c).encode()).digest()[:8])
+
+    def rerun(evs, pk):
+        im = WriteImpl(pk, None)
+        for ev in evs:
+            im.apply(ev)
+        return im.records
+    if bad is not None:
+        events, pk, recs = metas[bad]
+        thm0 = write_monitor(recs, ck.pid)[0]
+        small = D.shrink(events, lambda e: (write_monitor(rerun(e, pk), ck.pid) or [None])[0] == thm0)
+        g = write_monitor(rerun(small, pk), ck.pid)
+        ck.violation({"kind": "monitor: request whose write raises", "theorem": g[0], "message": g[1], "events": D.jsonable(small),
+                      "policy": pk, "impl_outputs": [[D.jsonable([o])[0] for o in r[2]] for r in rerun(small, pk)], "replay_op": "bc-write"})
+    elif diffs:
+        events, pk, recs = metas[diffs[0]]
+        small = D.shrink(events, lambda e: D.enc_trace(rerun(e, pk)) != ck.model("brokerclientwrite", [enc_wcase(e)])[0], budget=150)
+        ck.violation({"kind": "correspondence broken", "correspondence": "corr:brokerclientwrite:" + label, "theorems_no_longer_tied": tied,
+                      "events": D.jsonable(small), "policy": pk, "impl": D.enc_trace(rerun(small, pk)),
+                      "model": ck.model("brokerclientwrite", [enc_wcase(small)])[0], "differing_cases": len(diffs), "replay_op": "bc-write"}, no_input=True)
+    return st
+
+
+def replay_write(rp):
+    events = D.unjson(rp["events"])
+    im = WriteImpl(rp.get("policy", "const"), None)
+    for ev in events:
+        im.apply(ev)
+    print(rp.get("kind"), "|", rp.get("message", ""))
+    for ev, c, outs, en in im.records:
+        print("  %-36r connected=%d %r" % (ev if ev[0] not in ("data", "frame") else (ev[0], list(ev[1])), c, outs))
+    g = write_monitor(im.records, rp.get("property", "C10"))
+    print("monitor verdict now:", g)
+    rc = 1 if g else 0
+    exe = os.path.join(vlib.OUT, "run_brokerclientwrite")
+    if os.path.exists(exe):
+        p = subprocess.run([exe], input=(vlib.encode_line(enc_wcase(events)) + "\n").encode(), stdout=subprocess.PIPE)
+        mt = [int(x) for x in p.stdout.decode().split()]
+        if mt != D.enc_trace(im.records):
+            print("differs from the model:", mt)
+            rc = 1
+    return rc
